@@ -1,5 +1,5 @@
 (* Property C13, infinite bc: in the model of Model/SweepInf.v every environment read for eff_H is current on its
-   window of L sites, for EVERY number of sweeps; unit cells n < L <= 16 (the abstract state reaches a fixed point of
+   window of L sites, for EVERY number of sweeps; unit cells n < L <= 24 (the abstract state reaches a fixed point of
    the sweep after three sweeps; checked by evaluation for each L, then induction on the number of sweeps). *)
 From TenpyV Require Import Base.Prelude Model.Sweep Model.SweepInf.
 Local Open Scope nat_scope.
@@ -41,22 +41,20 @@ Proof.
     apply from_fix; assumption.
 Qed.
 
-Lemma fix_ok_2 : Forall (fun L => fix_ok L 2) [3; 4; 5; 6; 7; 8; 9; 10; 11; 12; 13; 14; 15; 16].
-Proof. repeat (constructor; [repeat split; vm_compute; reflexivity|]). constructor. Qed.
+Lemma fix_ok_2 : Forall (fun L => fix_ok L 2) [3; 4; 5; 6; 7; 8; 9; 10; 11; 12; 13; 14; 15; 16; 17; 18; 19; 20; 21; 22; 23; 24].
+Proof. repeat (constructor; [unfold fix_ok; split; [|split]; vm_compute; reflexivity|]). constructor. Qed.
 
-Lemma fix_ok_1 : Forall (fun L => fix_ok L 1) [2; 3; 4; 5; 6; 7; 8; 9; 10; 11; 12; 13; 14; 15; 16].
-Proof. repeat (constructor; [repeat split; vm_compute; reflexivity|]). constructor. Qed.
+Lemma fix_ok_1 : Forall (fun L => fix_ok L 1) [2; 3; 4; 5; 6; 7; 8; 9; 10; 11; 12; 13; 14; 15; 16; 17; 18; 19; 20; 21; 22; 23; 24].
+Proof. repeat (constructor; [unfold fix_ok; split; [|split]; vm_compute; reflexivity|]). constructor. Qed.
 
-Lemma no_stale_inf_all : forall L n k, (n = 1 \/ n = 2) -> n < L <= 16 -> no_stale_inf L n k = true.
+Lemma no_stale_inf_all : forall L n k, (n = 1 \/ n = 2) -> n < L <= 24 -> no_stale_inf L n k = true.
 Proof.
   intros L n k Hn HL. apply all_sweeps_of_fix. destruct Hn as [-> | ->].
   - pose proof fix_ok_1 as H. rewrite Forall_forall in H. apply H.
-    assert (E : L = 2 \/ L = 3 \/ L = 4 \/ L = 5 \/ L = 6 \/ L = 7 \/ L = 8 \/ L = 9 \/ L = 10 \/ L = 11 \/ L = 12 \/
-                L = 13 \/ L = 14 \/ L = 15 \/ L = 16) by lia.
+    assert (E : L = 2 \/ L = 3 \/ L = 4 \/ L = 5 \/ L = 6 \/ L = 7 \/ L = 8 \/ L = 9 \/ L = 10 \/ L = 11 \/ L = 12 \/ L = 13 \/ L = 14 \/ L = 15 \/ L = 16 \/ L = 17 \/ L = 18 \/ L = 19 \/ L = 20 \/ L = 21 \/ L = 22 \/ L = 23 \/ L = 24) by lia.
     cbn [In]. intuition.
   - pose proof fix_ok_2 as H. rewrite Forall_forall in H. apply H.
-    assert (E : L = 3 \/ L = 4 \/ L = 5 \/ L = 6 \/ L = 7 \/ L = 8 \/ L = 9 \/ L = 10 \/ L = 11 \/ L = 12 \/
-                L = 13 \/ L = 14 \/ L = 15 \/ L = 16) by lia.
+    assert (E : L = 3 \/ L = 4 \/ L = 5 \/ L = 6 \/ L = 7 \/ L = 8 \/ L = 9 \/ L = 10 \/ L = 11 \/ L = 12 \/ L = 13 \/ L = 14 \/ L = 15 \/ L = 16 \/ L = 17 \/ L = 18 \/ L = 19 \/ L = 20 \/ L = 21 \/ L = 22 \/ L = 23 \/ L = 24) by lia.
     cbn [In]. intuition.
 Qed.
 
